@@ -6,7 +6,8 @@ from c09lib import PortInst, Env, AxlMaster, WbMaster, WbPartner, AxlPartner, Cs
 from migen import Module
 from litex.soc.interconnect import wishbone
 from litex.soc.interconnect import csr_bus
-from litex.soc.interconnect.axi import (AXILiteInterface, AXILite2Wishbone, Wishbone2AXILite, AXILiteSRAM, AXILite2CSR)
+from litex.soc.interconnect.axi import (AXILiteInterface, AXILite2Wishbone, Wishbone2AXILite, AXILiteSRAM, AXILite2CSR,
+                                        AXILiteDownConverter, AXILiteUpConverter, AXILiteConverter)
 
 FMT = ("letter = master-driven signals of the master-side bus ++ slave-driven signals of the slave-side bus; "
        "AXI-Lite master: awvalid awaddr wvalid wdata wstrb bready arvalid araddr rready; AXI-Lite slave: awready "
@@ -80,7 +81,11 @@ def mk_wb2axl(dw, aw, base=0, addressing="word", pol=None, small=False, p_err=0.
 MASTERS = {"single": dict(max_out=1), "pipelined": dict(max_out=3, max_delay=2),
            "w-first": dict(max_out=1, order="w_first"), "aw-first": dict(max_out=2, order="aw_first"),
            "busy": dict(max_out=2, p_wr=0.9, p_rd=0.9, p_bready=0.9, p_rready=0.9, max_delay=0),
-           "lazy": dict(max_out=1, p_wr=0.1, p_rd=0.1, p_bready=0.15, p_rready=0.15)}
+           "lazy": dict(max_out=1, p_wr=0.1, p_rd=0.1, p_bready=0.15, p_rready=0.15),
+           # address first or together with the data, one transaction per direction at a time
+           "aw-then-w": dict(max_out=1, order="aw_first"), "aw-with-w": dict(max_out=1, order="same"),
+           "unaligned": dict(max_out=1, align=False),
+           "aw-then-w-busy": dict(max_out=1, order="aw_first", p_wr=0.9, p_rd=0.9, p_bready=0.9, p_rready=0.9, max_delay=1)}
 
 
 def mk_axlsram(dw, aw, depth, read_only=False, master=None, small=False, tag=""):
@@ -134,6 +139,54 @@ def mk_axl2csr(dw, aw, csr_aw=14, master=None, small=False, tag=""):
                     env=env, monitor=mon)
 
 
+def mk_axldown(dw_from, dw_to, aw, pol=None, master="single", small=None, p_err=0.0, tag="", cls=None):
+    nbf, nbt = dw_from // 8, dw_to // 8
+    ratio = dw_from // dw_to
+    mi = AXILiteInterface(data_width=dw_from, address_width=aw)
+    si = AXILiteInterface(data_width=dw_to, address_width=aw)
+    m = (cls or AXILiteDownConverter)(mi, si)
+    name = "%s(%d->%d,aw=%d)%s" % ((cls or AXILiteDownConverter).__name__, dw_from, dw_to, aw, tag)
+    env = mon = None
+    if pol is not None:
+        env = Env(AxlMaster(aw, nbf, **MASTERS[master]), AxlPartner(nbt, p_err=p_err, **AXL_POL[pol]), "axl")
+        name += "/%s/%s" % (master, pol)
+        mon = lambda inst: BridgeMonitor(inst, "axl", "axl", nbf, nbt, lambda a: a & ~(nbf - 1), lambda a: a & ~(nbt - 1),
+                                         errs=True)
+    dom = None
+    amax = (1 << aw) - 1
+    fullw = (1 << dw_from) - 1
+    if small == "w":
+        dom = {"m.awaddr": (0, amax), "m.wdata": (0xA5C3 & fullw,), "m.wstrb": tuple(range(1 << nbf)),
+               "m.arvalid": (0,), "m.araddr": (0,), "m.rready": (0,),
+               "s.arready": (0,), "s.rvalid": (0,), "s.rresp": (0,), "s.rdata": (0,), "s.bresp": (0, 2)}
+    elif small == "r":
+        dom = {"m.awvalid": (0,), "m.awaddr": (0,), "m.wvalid": (0,), "m.wdata": (0,), "m.wstrb": (0,), "m.bready": (0,),
+               "m.araddr": (0, amax), "s.awready": (0,), "s.wready": (0,), "s.bvalid": (0,), "s.bresp": (0,),
+               "s.rresp": (0, 2), "s.rdata": (0, (1 << dw_to) - 2)}
+    return PortInst(name, m, "axldown %d %d %d" % (ratio, nbt, aw), "axl", mi, "axl", si, dom=dom, env=env, monitor=mon)
+
+
+def mk_axlup(dw_from, dw_to, aw, pol=None, master="single", small=False, p_err=0.0, tag="", cls=None):
+    nbf, nbt = dw_from // 8, dw_to // 8
+    ratio = dw_to // dw_from
+    mi = AXILiteInterface(data_width=dw_from, address_width=aw)
+    si = AXILiteInterface(data_width=dw_to, address_width=aw)
+    m = (cls or AXILiteUpConverter)(mi, si)
+    name = "%s(%d->%d,aw=%d)%s" % ((cls or AXILiteUpConverter).__name__, dw_from, dw_to, aw, tag)
+    env = mon = None
+    if pol is not None:
+        env = Env(AxlMaster(aw, nbf, **MASTERS[master]), AxlPartner(nbt, p_err=p_err, **AXL_POL[pol]), "axl")
+        name += "/%s/%s" % (master, pol)
+        mon = lambda inst: BridgeMonitor(inst, "axl", "axl", nbf, nbt, lambda a: a & ~(nbf - 1), lambda a: a & ~(nbt - 1),
+                                         errs=True)
+    dom = None
+    if small:
+        amax = (1 << aw) - 1
+        dom = {"m.awaddr": (0, amax), "m.araddr": (0, amax), "m.wdata": ((1 << dw_from) - 2,), "m.wstrb": (1,),
+               "s.bresp": (2,), "s.rresp": (0,), "s.rdata": (0x3C5A & ((1 << dw_to) - 1),)}
+    return PortInst(name, m, "axlup %d %d" % (ratio, nbf), "axl", mi, "axl", si, dom=dom, env=env, monitor=mon)
+
+
 def jobs(tier):
     quick = tier == "quick"
     J = []
@@ -153,7 +206,7 @@ def jobs(tier):
     A(lambda: mk_axlsram(16, 3, 2, small=True))
     A(lambda: mk_axlsram(8, 2, 2, read_only=True, small=True))
     A(lambda: mk_axl2csr(8, 2, csr_aw=1, small=True))
-    for ms in MASTERS:
+    for ms in ("single", "pipelined", "w-first", "aw-first", "busy", "lazy"):
         B(lambda ms=ms: mk_axlsram(32, 32, 64, master=ms))
     B(lambda: mk_axlsram(64, 16, 16, master="pipelined"))
     B(lambda: mk_axlsram(32, 16, 32, read_only=True, master="busy"))
@@ -162,6 +215,28 @@ def jobs(tier):
         B(lambda ms=ms: mk_axl2csr(32, 32, master=ms))
     B(lambda: mk_axl2csr(8, 16, csr_aw=10, master="w-first"))
     B(lambda: mk_axl2csr(32, 32, tag="/garbage"))
+    # ---- AXI-Lite down-converter
+    A(lambda: mk_axldown(16, 8, 2, small="w", tag="/write-path"))
+    A(lambda: mk_axldown(16, 8, 2, small="r", tag="/read-path"))
+    A(lambda: mk_axldown(32, 8, 3, small="w", tag="/write-path"))
+    A(lambda: mk_axldown(32, 8, 3, small="r", tag="/read-path"))
+    for (f, t) in ((64, 32), (32, 8), (64, 8)):
+        for k, pol in enumerate(AXL_POL):
+            ms = list(MASTERS)[(k + f) % 6]
+            if quick and (f, t) != (64, 32) and k % 2:
+                continue
+            B(lambda f=f, t=t, pol=pol, ms=ms: mk_axldown(f, t, 32, pol=pol, master=ms, p_err=0.1))
+    B(lambda: mk_axldown(64, 16, 16, tag="/garbage"))
+    # ---- AXI-Lite up-converter (a master that issues a new address while a transfer of the same direction is
+    #      open is outside the proved domain: finding C09-axil-upconv-lane-follows-address)
+    A(lambda: mk_axlup(8, 16, 2, small=True))
+    for (f, t) in ((32, 64), (8, 32), (8, 64)):
+        for k, pol in enumerate(AXL_POL):
+            ms = ("aw-then-w", "aw-with-w", "aw-then-w-busy")[(k + t) % 3]
+            if quick and (f, t) != (32, 64) and k % 2:
+                continue
+            B(lambda f=f, t=t, pol=pol, ms=ms: mk_axlup(f, t, 32, pol=pol, master=ms, p_err=0.1))
+    B(lambda: mk_axlup(16, 64, 16, tag="/garbage"))
     # ---- Wishbone2AXILite
     A(lambda: mk_wb2axl(8, 2, base=4, small=True))
     A(lambda: mk_wb2axl(16, 3, base=0, small=True))
@@ -239,8 +314,105 @@ def search(ctx, disagreements, proof_info):
     return None
 
 
+# ---------------------------------------------------------------------------------------------------------
+# finding probes (witnesses replayed on the real code with the property oracle armed)
+
+F_ERR = "C09-axil2wb-err-ignored"
+F_BASE = "C09-wb2axil-base-address-dw64"
+F_UPLANE = "C09-axil-upconv-lane-follows-address-lines"
+F_HANG = "C09-axil-downconv-write-hang"              # fixed f8f7de0
+F_UNAL = "C09-axil-downconv-unaligned-addr"          # fixed a1e11a3
+
+
+def word_at(base, nb):
+    return sum(L.init_byte(base + k) << (8 * k) for k in range(nb))
+
+
+def run_witness(inst, dicts):
+    """Replay a hand-written witness (list of {signal name: value}, missing inputs 0) with the monitor armed."""
+    inst.strict_env = False
+    trace = [inst.letter_of(d) for d in dicts]
+    r = replay_with_monitor(inst, trace)
+    return (r is not None), ("cycle %d: %s" % r if r else "witness passes")
+
+
+def closed_loop_probe(inst, seed, cycles):
+    import random
+    r = closed_loop_search(inst, random.Random(seed), cycles)
+    return (r is not None), ("cycle %d: %s" % (len(r[0]) - 1, r[1]) if r else "%d cycles pass" % cycles)
+
+
+def all_probes():
+    out = []
+    # -- AXILite2Wishbone answers OKAY although the Wishbone slave terminated the cycle with ack & err
+    inst = mk_axl2wb(32, 32, base=0, pol="fast")
+    rd = {"m.arvalid": 1, "m.araddr": 0x10, "m.rready": 1}
+    w = [rd, dict(rd, **{"s.ack": 1, "s.err": 1, "s.datr": 0xDEAD}), {"m.rready": 1}, {}]
+    fails, what = run_witness(inst, w)
+    out.append((F_ERR, fails, "AXILite2Wishbone: read of 0x10, Wishbone answers ack & err; " + what))
+    # -- Wishbone2AXILite, 64-bit bus, base 0x1000: byte address 0x1018 must reach AXI-Lite address 0x18
+    inst = mk_wb2axl(64, 32, base=0x1000, pol="fast")
+    rq = {"m.cyc": 1, "m.stb": 1, "m.adr": 0x203, "m.sel": 0xff}
+    seen = inst.peek({})
+    tr, addr = [rq], None
+    inst.strict_env = False
+    n = inst.netlist
+    snap = n.snapshot()
+    impl_step(inst, inst.letter_of(rq))
+    o = inst.peek({"m." + k[2:]: v for k, v in rq.items()})
+    addr = o["s.araddr"]
+    n.restore(snap)
+    w = [rq, dict(rq, **{"s.arready": 1}), dict(rq, **{"s.rvalid": 1, "s.rdata": word_at(addr & ~7, 8)}), {}]
+    fails, what = run_witness(inst, w)
+    out.append((F_BASE, fails, "Wishbone2AXILite(64-bit, base 0x1000): read of byte address 0x1018 issued as "
+                               "ar.addr 0x%x; %s" % (addr, what)))
+    # -- AXILiteUpConverter: the byte-lane group follows the address lines, not the transaction
+    #    (a) a second AR is presented while the R of the first is outstanding
+    inst = mk_axlup(32, 64, 32, pol="fast")
+    w64 = word_at(0, 8)
+    w = [{"m.arvalid": 1, "m.araddr": 0x0, "s.arready": 1},
+         {"m.arvalid": 1, "m.araddr": 0x4, "m.rready": 1, "s.rvalid": 1, "s.rdata": w64},
+         {"m.arvalid": 1, "m.araddr": 0x4, "s.arready": 1}]
+    fails, what = run_witness(inst, w)
+    out.append((F_UPLANE, fails, "AXILiteUpConverter(32->64): AR 0x0 accepted, AR 0x4 presented while its R is "
+                                 "outstanding; " + what))
+    #    (b) W presented before its AW (previous write went to the other lane)
+    inst = mk_axlup(32, 64, 32, pol="fast")
+    w = [{"m.awvalid": 1, "m.awaddr": 0x4, "m.wvalid": 1, "m.wdata": 0x11111111, "m.wstrb": 0xf, "s.awready": 1,
+          "s.wready": 1},
+         {"m.bready": 1, "s.bvalid": 1},
+         {"m.wvalid": 1, "m.wdata": 0x22222222, "m.wstrb": 0xf},
+         {"m.awvalid": 1, "m.awaddr": 0x0, "m.wvalid": 1, "m.wdata": 0x22222222, "m.wstrb": 0xf, "s.awready": 1,
+          "s.wready": 1}]
+    fails, what = run_witness(inst, w)
+    out.append((F_UPLANE, fails, "AXILiteUpConverter(32->64): W for address 0x0 presented one cycle before its AW, "
+                                 "previous write to 0x4; " + what))
+    # -- fixed: down-converter write whose first sub-word is unstrobed, slave with aw/w.ready high while idle
+    inst = mk_axldown(64, 32, 32, pol="fast", master="single")
+    inst.env.master.strbs = (0xf0, 0xf0, 0x0f, 0xc0)
+    inst._monitor = lambda i: BridgeMonitor(i, "axl", "axl", 8, 4, lambda a: a & ~7, lambda a: a & ~3, hang=60)
+    fails, what = closed_loop_probe(inst, 11, 600)
+    out.append((F_HANG, fails, "AXILiteDownConverter(64->32): writes with strb 0xf0 to a slave whose aw/w.ready are "
+                               "high while idle; " + what))
+    # -- fixed: down-converter access with low address bits set must hit the aligned wide word
+    inst = mk_axldown(64, 32, 32, pol="fast", master="unaligned")
+    fails, what = closed_loop_probe(inst, 12, 600)
+    out.append((F_UNAL, fails, "AXILiteDownConverter(64->32): accesses with addr[2:0] != 0; " + what))
+    return out
+
+
 def probes(ctx):
-    return []
+    """Probes of findings that are not (yet) listed in known_findings.json are run and logged as notes only."""
+    listed = {e.get("id") for e in ctx.known}
+    out = []
+    for fid, fails, what in all_probes():
+        if fid in listed:
+            out.append((fid, fails, what))
+        else:
+            note = "probe %s (not listed in known_findings.json): %s: %s" % (fid, "REPRODUCES" if fails else "passes", what)
+            ctx.log(note)
+            ctx.cov.notes.append(note)
+    return out
 
 
 def replay(ctx, payload):
